@@ -194,3 +194,21 @@ Theorem multi_tan_command_selection_reaches_the_collection :
                         [("hdu_index"%string, setting "hdu_index"); ("wcs_key"%string, setting "wcs_key")].
 Proof. reflexivity. Qed.
 Print Assumptions multi_tan_command_selection_reaches_the_collection.
+
+(* `toasty view` (cli.view_locally), in the same generated file: under every valuation of its
+   settings it behaves like the hand-written model, in which the collection is loaded from the
+   paths exactly as the user gave them (a file named twice stays twice, so per-file --hdu-index /
+   --wcs-key lists keep their positions) by the loader built from the settings, and each
+   tiling-method name selects its own TilingMethod. *)
+Theorem src_view_command_is_model :
+  forall (is_none : sval unit -> bool) (eq_lit : sval unit -> string -> bool) (is_true : sval unit -> bool),
+  run_tree is_none eq_lit is_true src_cli_view_locally = view_locally_model eq_lit is_true.
+Proof. exact src_view_locally_eq. Qed.
+Print Assumptions src_view_command_is_model.
+
+Theorem view_command_loads_the_paths_as_given :
+  view_collection
+  = SCallA "load_paths" (SCallA "create_from_args" (SName "CollectionLoader") [SName "settings"] [])
+           [setting "paths"] [].
+Proof. reflexivity. Qed.
+Print Assumptions view_command_loads_the_paths_as_given.
